@@ -26,8 +26,23 @@ def stJsonC06 (st : St) (n : Nat) : Json :=
     ("tags", Json.arr (st.tags.map Json.str).toArray),
     ("valid", Json.arr ((List.range (2 ^ n)).map (fun b => Json.bool (isValid st (assignBits n b)))).toArray)]
 
-/-- op "logic": a sequence of logical constraint calls on one fresh PCBO.
-each element: {eq: bool, g: gate name, ops: [sexpr], lam}.  The operands are built first (as Python evaluates the
+def relOfStringC06 : String → Except String Rel
+  | "eq" => pure .eq | "ne" => pure .ne | "lt" => pure .lt | "le" => pure .le
+  | "gt" => pure .gt | "ge" => pure .ge | s => throw s!"bad rel {s}"
+
+/-- a comparison-constraint step of a history: {cmp: true, rel, P (raw items; the model applies `PUBO(P)`), lam, lt,
+lo, hi} — `add_constraint_<rel>_zero(P, lam, log_trick=lt, bounds=(lo, hi))` -/
+def cmpStep (st : St) (c : Json) : Except String St := do
+  let rel ← c.getObjVal? "rel" >>= Json.getStr? >>= relOfStringC06
+  let P0 ← c.getObjVal? "P" >>= polyOfJson
+  let lam ← c.getObjVal? "lam" >>= ratOfJson
+  let lt ← c.getObjVal? "lt" >>= Json.getBool?
+  let lo ← c.getObjVal? "lo" >>= optRat
+  let hi ← c.getObjVal? "hi" >>= optRat
+  pure (addConstraint rel st (constructB P0) lam lt (lo, hi) false)
+
+/-- op "logic": a history of logical constraint calls (and, interleaved, comparison constraints) on one fresh PCBO.
+each element: {eq: bool, g: gate name, ops: [sexpr], lam}, or a comparison step (see `cmpStep`).  The operands are built first (as Python evaluates the
 arguments before the call); a step that raises leaves the PCBO unchanged.  Output: one entry per step, the state
 after it (or the error), with `is_solution_valid` on all assignments of the labels `0..n-1`. -/
 def handleLogic (j : Json) : Except String Json := do
@@ -35,6 +50,9 @@ def handleLogic (j : Json) : Except String Json := do
   let n ← j.getObjVal? "n" >>= Json.getNat?
   let (_, outs) ← seq.toList.foldlM (fun (acc : St × List Json) c => do
     let (st, outs) := acc
+    if (c.getObjVal? "cmp" >>= Json.getBool?).toOption.getD false then
+      let st' ← cmpStep st c
+      return (st', outs ++ [stJsonC06 st' n])
     let eq ← c.getObjVal? "eq" >>= Json.getBool?
     let gs ← c.getObjVal? "g" >>= Json.getStr?
     let g ← match Gate.ofName? gs with | some g => pure g | none => throw s!"bad gate {gs}"
